@@ -41,9 +41,9 @@ type Disk struct {
 
 	// Oracle hooks, called synchronously (no yields inside) when a file becomes
 	// visible / disappears.
-	OnPublish func(node, path string, data []byte)
-	OnRemove  func(node, path string, data []byte)
-	pendingDel   []pendingDelete
+	OnPublish  func(node, path string, data []byte)
+	OnRemove   func(node, path string, data []byte)
+	pendingDel []pendingDelete
 }
 
 type IOEvent struct {
@@ -146,7 +146,7 @@ func (d *Disk) get(p string) ([]byte, bool) {
 
 // --- harness-side accessors (no yields, no faults, not part of the system) ---
 
-func (d *Disk) Exists(p string) bool { _, ok := d.get(p); return ok }
+func (d *Disk) Exists(p string) bool            { _, ok := d.get(p); return ok }
 func (d *Disk) ReadRaw(p string) ([]byte, bool) { return d.get(p) }
 func (d *Disk) Paths() []string {
 	d.mu.Lock()
